@@ -33,33 +33,33 @@ CHECKS = {
         'title': 'bounded queue keeps the top k; results best-first, capped',
         'batches': [
             {'machine': 'heap', 'profile': 'default',
-             'runs': {'quick': 160000, 'thorough': 4000000},
-             'block': {'quick': 5000, 'thorough': 50000},
-             'wall': {'quick': 60, 'thorough': 900}},
+             'runs': {'quick': 400000, 'thorough': 12000000},
+             'block': {'quick': 12500, 'thorough': 100000},
+             'wall': {'quick': 60, 'thorough': 1500}},
             {'machine': 'mm', 'profile': 'c14',
-             'runs': {'quick': 192, 'thorough': 6000},
-             'block': {'quick': 6, 'thorough': 25},
-             'wall': {'quick': 75, 'thorough': 1500}},
+             'runs': {'quick': 320, 'thorough': 12000},
+             'block': {'quick': 5, 'thorough': 25},
+             'wall': {'quick': 80, 'thorough': 1700}},
         ]},
     'C08': {
         'title': 'diagnostics never serve stale values',
         'batches': [
             {'machine': 'diag', 'profile': 'default',
-             'runs': {'quick': 9600, 'thorough': 400000},
-             'block': {'quick': 300, 'thorough': 2500},
-             'wall': {'quick': 75, 'thorough': 1500}},
+             'runs': {'quick': 40000, 'thorough': 1500000},
+             'block': {'quick': 1250, 'thorough': 5000},
+             'wall': {'quick': 80, 'thorough': 1700}},
         ]},
     'C10': {
         'title': 'search API has no hidden state',
         'batches': [
             {'machine': 'mm', 'profile': 'faultfree',
-             'runs': {'quick': 256, 'thorough': 8000},
+             'runs': {'quick': 448, 'thorough': 14000},
              'block': {'quick': 4, 'thorough': 20},
-             'wall': {'quick': 80, 'thorough': 1500}},
+             'wall': {'quick': 85, 'thorough': 1700}},
             {'machine': 'mm', 'profile': 'faults',
-             'runs': {'quick': 192, 'thorough': 6000},
+             'runs': {'quick': 384, 'thorough': 12000},
              'block': {'quick': 4, 'thorough': 20},
-             'wall': {'quick': 80, 'thorough': 1500}},
+             'wall': {'quick': 85, 'thorough': 1700}},
         ]},
 }
 DETERMINISM_SAMPLE = {'heap': 64, 'diag': 24, 'mm': 4}
